@@ -13,6 +13,7 @@ import os
 sys.path.insert(0, os.path.dirname(os.path.abspath(__file__)))
 import simnet
 from simnet import CUR, rtmod, asyncoro, thresha, SECRETS
+from mpyc import finfields
 
 
 def field_info(x):
@@ -208,6 +209,10 @@ class ShareMonitor:
                         out.append(fi)
                     elif hasattr(v, 'value') and hasattr(v, 'field') and isinstance(getattr(v.field, 'modulus', None), int):
                         out.extend((v.field.modulus, int(u)) for u in v.value.reshape(-1).tolist())
+                    elif isinstance(v, finfields.FiniteFieldElement):
+                        out.append(('ext', int(v)))                      # extension fields: base-p digits as an int
+                    elif isinstance(v, finfields.FiniteFieldArray):
+                        out.extend(('ext', int(u)) for u in v.value.reshape(-1).tolist())
                     else:
                         out.append(('plain', v if isinstance(v, (int, float, bool, str, type(None))) else repr(v)[:60]))
                 mon.opened[pid].append((origin, out))
